@@ -1,5 +1,5 @@
 #!/usr/bin/python3
-"""keep_seed.py <PROP> <variant>: store a verified seeded change under /verif/seeded/<PROP>-<variant>/
+"""keep_seed.py <PROP> <variant> [srcdir]: store a verified seeded change under /verif/seeded/<PROP>-<variant>/
 (patch.diff, demo.rs, notes.md, meta.json) after /var/tmp/seedverify/<PROP>-<variant>.json confirms it, and
 record which checks report it (applies the patch to /repo, runs all quick checks, undoes it)."""
 import json
@@ -11,7 +11,7 @@ import sys
 
 prop, var = sys.argv[1], sys.argv[2]
 tag = '%s-%s' % (prop, var)
-src = '/var/tmp/seed/%s/%s' % (prop, var)
+src = sys.argv[3] if len(sys.argv) > 3 else '/var/tmp/seed/%s/%s' % (prop, var)
 ver = json.load(open('/var/tmp/seedverify/%s.json' % tag))
 ok = ver.get('apply_rc') == 0 and ver.get('demo_before_rc') == 0 and ver.get('demo_after_rc') not in (0, None) and ver.get('suite_other_failures') == 0 and ver.get('suite_passed', 0) >= 649
 if not ok:
